@@ -3,7 +3,7 @@ from __future__ import annotations
 
 from htmltools import HTMLDependency, HTMLDocument, Tag, TagList, head_content
 
-from engine.api import conc, concrete, harness
+from engine.api import conc, concrete, harness, pick
 from oracles.document import spec_document
 
 N_SHAPE = 10
@@ -100,3 +100,28 @@ def h_document(shape: int, i0: int, p0: int, i1: int, p1: int, cfg: int) -> bool
     """full-string comparison with the document the statement prescribes; returned dependency list == resolved list"""
     return concrete(_doc_body, conc(shape, 0, N_SHAPE - 1), conc(i0, 0, N_POOL - 1), conc(p0, 0, N_POS - 1), conc(i1, 0, N_POOL - 1),
                     conc(p1, 0, N_POS - 1), conc(cfg, 0, len(_CFG) - 1))
+
+
+@harness("C11", pre=lambda B, shape, which, t, v: shape in (0, 2, 3, 4) and 0 <= which <= 1 and len(t) <= B["L"] and len(v) <= B["L"]
+         and ((which == 0 and t == "T<") or (which == 1 and v == "en")),
+         bounds={"quick": {"L": 2}, "thorough": {"L": 2}},
+         shard={"shape": (0, 2, 3, 4), "which": range(2)},
+         sym=["t: text in the body and in a dependency's meta content", "v: value of the html attributes (lang, class); str over all code points, len <= L"],
+         sel=["shape: fragment / lone <body> / lone <html> with head / lone <html> without head", "which: v symbolic (t fixed) or t symbolic (v fixed)"],
+         targets=["htmltools._core.HTMLDocument.render", "htmltools._core.HTMLDocument._hoist_head_content"], timeout={"quick": 300, "thorough": 1500})
+def h_document_sym(shape: int, which: int, t: str, v: str) -> bool:
+    """the same comparison with arbitrary text and attribute values"""
+    d = HTMLDependency("sym", "1.0", meta={"name": "m", "content": t}, head=Tag("title", t))
+    body_kids = [Tag("div", t, d, id="main")]
+    if shape == 0:
+        content = body_kids
+    elif shape == 2:
+        content = [Tag("body", *body_kids, class_=v)]
+    elif shape == 3:
+        content = [Tag("html", Tag("head", Tag("title", "user")), Tag("body", *body_kids), lang="xx")]
+    else:
+        content = [Tag("html", Tag("body", *body_kids))]
+    attrs = {"lang": v, "class_": v}
+    r = HTMLDocument(*content, **attrs).render(lib_prefix="lib", include_version=True)
+    want_html, want_deps = spec_document(list(TagList(*content)), attrs, "lib", True)
+    return r["html"] == want_html and len(r["dependencies"]) == 1 and r["dependencies"][0] == d
